@@ -35,9 +35,10 @@ ASSUMPTIONS = [
     "ZIP index cache results hold for dbm.dumb (the only dbm back end in this interpreter)",
 ]
 PROBES_REQUIRED = ["reader_opened_damaged_cache", "fs_crash_in_write", "fs_enospc",
-                   "race_reader_saw_partial"]
+                   "race_reader_saw_partial", "fs_stalled_reader"]
 
-KINDS = ["trunc", "trunc", "trunc", "zero", "crash", "enospc", "race", "race", "zip", "crash", "enospc-close"]
+KINDS = ["trunc", "trunc", "trunc", "zero", "crash", "enospc", "race", "race", "zip", "crash", "enospc-close",
+         "splice"]
 PROTOS = proto.LISTING_PROTOCOLS
 
 
@@ -70,6 +71,17 @@ def gen(seed, index, tier):
         sc["mutate"] = rng.choice([{"op": "delete", "p": pre + victim},
                                    {"op": "rename", "p": pre + victim, "to": pre + "renamed-" + victim},
                                    {"op": "create", "p": pre + "brand-new.txt"}])
+    if kind == "splice":
+        # a slow reader is part-way through a fresh cache when another request, for which the cache has
+        # just expired, rewrites it; the directory changed (same-length names) since the cache was written
+        nfiles = rng.choice([40, 80, 120])
+        sc["spec"] = [{"p": "big", "k": "dir"}] + [
+            {"p": "big/f%03d.txt" % i, "k": "file", "d": "x\n"} for i in range(nfiles)]
+        sc["dir"] = "big"
+        sc["mutate_same_len"] = [rng.randrange(nfiles), nfiles + rng.randrange(50)]
+        sc["stall_read"] = rng.choice([1, 2, 3, 4])
+        sc["servertype"] = "ThreadingTCPServer"
+        sc["protoA"] = sc["protoB"] = rng.choice(["gopher", "http", "gemini"])
     if kind == "race":
         sc["clients"] = [rng.choice(PROTOS) for _ in range(rng.randrange(2, 4))]
         sc["preempt_p"] = rng.choice([0.0, 0.01, 0.05, 0.2])
@@ -180,6 +192,11 @@ def execute(sc, tape=None):
             return _exec_race(sc, root, refs, sel, tp)
         if sc["kind"] == "trunc-sweep":
             return _exec_sweep(sc, root, refs, sel, tp)
+        if sc["kind"] == "splice":
+            old, new = sc["mutate_same_len"]
+            os.rename(os.path.join(refroot, "big", "f%03d.txt" % old), os.path.join(refroot, "big", "f%03d.txt" % new))
+            simfs.real_utime(os.path.join(refroot, "big"), (sched.EPOCH + 1, sched.EPOCH + 1))
+            return _exec_splice(sc, root, refs, mkrefs(refroot), sel, tp)
         if sc["kind"] == "zip":
             return _exec_zip(sc, root, refs, sel, tp)
         return _exec_cut(sc, root, refs, sel, tp)
@@ -338,6 +355,44 @@ def _exec_sweep(sc, root, refs, sel, tp):
                         run.sim.now - sched.EPOCH, run.sim.steps, run.sim.switches)
     res["shapes"] = shapes
     return res
+
+
+def _exec_splice(sc, root, refs_old, refs_new, sel, tp):
+    cacherel = "big/" + CACHEFILE
+    run = _mkrun(sc, root, tp)
+    resps = []
+    viol = None
+    counters = {}
+    with run:
+        run.fs.watch_open = CACHEFILE
+        p = sc["protoA"]
+        req, tls = proto.make_request(p, sel)
+        c1 = run.client(req, tls=tls)              # t0: cache written (old directory)
+        run.go()
+        resps.append(bytes(c1.s2c))
+        old, new = sc["mutate_same_len"]
+        run.advance(1.0)
+        os.rename(os.path.join(root, "big", "f%03d.txt" % old), os.path.join(root, "big", "f%03d.txt" % new))
+        simfs.real_utime(os.path.join(root, "big"), (run.sim.now, run.sim.now))
+        run.advance(178.0)                          # t0+179: the cache is still fresh for the reader
+        run.fs.faults.append(simfs.Fault("read", cacherel, "stall", nth=sc["stall_read"], cut=2.5))
+        cr = run.client(req, tls=tls)               # reader: stalls 2.5 s inside its n-th read of the cache
+        cw = run.client(req, tls=tls, at=2.0)       # t0+181: expired for this one -> rescans and rewrites
+        run.go()
+        run.shutdown()
+        for c in (cr, cw):
+            got = proto.normalize(p, bytes(c.s2c))
+            resps.append(bytes(c.s2c))
+            if got not in (refs_old[p], refs_new[p]) and viol is None:
+                kind = "empty" if not got else ("error" if not proto.is_success(p, got) else "spliced")
+                viol = {"oracle": "reader-during-rewrite",
+                        "signature": {"oracle": "reader-during-rewrite", "fault": "splice", "reply": kind},
+                        "detail": "a reader that stalled inside its read of the cache while it was rewritten got a "
+                                  "listing that is neither the old nor the new directory: %r" % common.short(got, 300)}
+        counters = common.run_counters(run)
+    shape = ["splice", len(sc["spec"]), sc["stall_read"], p] if counters.get("fs_stalled_reader") else None
+    return common.result(viol, shape, counters, common.run_digest(run, resps), tp.rec,
+                         run.sim.now - sched.EPOCH, run.sim.steps, run.sim.switches)
 
 
 def _exec_race(sc, root, refs, sel, tp):
